@@ -181,7 +181,7 @@ def _par_entry(args):
     t0 = _t.time()
     try:
         signal.signal(signal.SIGALRM, _alarm)
-        signal.alarm(int(os.environ.get("SPVERIF_TASK_TIMEOUT", "240")))
+        signal.alarm(int(os.environ.get("SPVERIF_TASK_TIMEOUT", "1200")))
     except (ValueError, AttributeError):
         pass
     try:
